@@ -9,8 +9,11 @@
     values (integerValue, stringValue, *Array, *Hash …) → `Val`
     *IntegerType used as a size / numeric range          → `Rng` (closed, Int64 bounds; `I64.max` plays "unbounded")
 
+  Timestamp[min,max] (timestamptype.go) is inside the model since the extension round: `Ty.tstamp r` / `Val.tstamp n`, instants counted in
+  nanoseconds since 0001-01-01T00:00:00Z (time.Time's own epoch; `tstampAll` = [MinTime, MaxTime] is the default type, which — like the code —
+  does NOT reach instants before year 1).
   Not modelled (second tier; harness-side predicates only, labelled as tests): Callable, Runtime, Iterator, Like, Init,
-  TypeReference, Timestamp, SemVer, SemVerRange, URI, TypeSet, the Pcore::* meta types as type terms, user-defined
+  TypeReference, SemVer, SemVerRange, URI, TypeSet, the Pcore::* meta types as type terms, user-defined
   recursive aliases.  Non-recursive user aliases are expanded by the harness encoder.  The two built-in recursive aliases
   `Data` and `RichData` are constructors with direct recursive definitions.
 -/
@@ -88,6 +91,7 @@ inductive Ty where
   | float (lo hi : Fl)
   | bool (v : Option Bool)
   | tspan (r : Rng)
+  | tstamp (r : Rng)                      -- Timestamp[min,max]; instants as nanoseconds since 0001-01-01T00:00:00Z (time.Time's own epoch)
   | strSz (r : Rng)                       -- scStringType
   | strVal (s : String)                   -- vcStringType
   | enum (vs : List String) (ci : Bool)
@@ -106,7 +110,7 @@ inductive Ty where
 inductive Val where
   | undef | dflt
   | bool (b : Bool) | int (i : Int) | float (f : Fl) | str (s : String)
-  | regexp (src : String) | binary (bs : List UInt8) | tspan (n : Int)
+  | regexp (src : String) | binary (bs : List UInt8) | tspan (n : Int) | tstamp (n : Int)
   | array (vs : List Val)
   | hash (es : List (Val × Val))
   | sensitive (v : Val)
@@ -176,6 +180,7 @@ def Ty.beq : Ty → Ty → Bool
   | .float l h, .float l' h' => l == l' && h == h'
   | .bool v, .bool v' => v == v'
   | .tspan r, .tspan r' => r == r'
+  | .tstamp r, .tstamp r' => r == r'
   | .strSz r, .strSz r' => r == r'
   | .strVal s, .strVal s' => s == s'
   | .enum vs ci, .enum vs' ci' => vs == vs' && ci == ci'
